@@ -34,6 +34,7 @@ func NewHistogramGroupedRecorder(collector ftdc.Collector, interval time.Duratio
 		point:     NewHistogramMillisecond(PerformanceGauges{}),
 		collector: collector,
 		catcher:   util.NewCatcher(),
+		interval:  interval,
 	}
 }
 
